@@ -19,6 +19,7 @@ import (
 	"strings"
 
 	agglayertypes "github.com/agglayer/aggkit/agglayer/types"
+	"github.com/agglayer/aggkit/aggsender/types"
 	"github.com/ethereum/go-ethereum/crypto"
 	"verif/h/kit"
 	"verif/h/mc"
@@ -349,92 +350,129 @@ func run(c *mc.Ctx, u mc.Unit) {
 			len(w.flow.built), len(w.submission.requests), w.sender.Info().AggsenderStatus.LastError)
 		return
 	}
-	built := w.flow.built[0]
-	raw := w.submission.requests[0]
-	in := fmt.Sprintf("%s prev=%v", sp, withPrev)
-	nw, err := fromWire(raw)
-	if err != nil {
-		c.Failf("transport/wire/unreadable", "%s: %v", in, err)
-		return
-	}
-	row, err := w.storage.GetCertificateByHeight(nw.Height)
-	if err != nil || row == nil || row.SignedCertificate == nil {
-		c.Failf("pipeline/certificate-not-stored", "%s: no stored copy at the submitted height %d: %v (last error %q)", in,
-			nw.Height, err, w.sender.Info().AggsenderStatus.LastError)
-		return
-	}
-	stored := *row.SignedCertificate
-	nj, err := fromJSON(stored)
-	if err != nil {
-		c.Failf("transport/json/unreadable", "%s: the stored JSON does not show a covered field: %v", in, err)
-		return
-	}
-	fb := flat(fromStruct(built))
-	if d := diffFlat(fb, flat(nw)); len(d) > 0 {
-		c.Failf("transport/wire/"+fieldKey(d), "%s: the submitted message differs from the built certificate:%s", in, showDiff(d))
-	}
-	if d := diffFlat(fb, flat(nj)); len(d) > 0 {
-		c.Failf("transport/json/"+fieldKey(d), "%s: the stored copy differs from the built certificate:%s", in, showDiff(d))
-	}
-	if d := diffFlat(flat(nw), flat(nj)); len(d) > 0 {
-		c.Failf("stored-ne-sent/"+fieldKey(d), "%s: the stored copy differs from the submitted message:%s", in, showDiffAs(d, "sent", "stored"))
-	}
+	// verify checks one submission end to end: built certificate = wire = stored copy, and the signature is the
+	// configured signer's over the commitment recomputed from the wire and from the stored copy
+	verify := func(built *agglayertypes.Certificate, raw []byte, in string) (nwOut *nCert, commitOut []byte, kindOut string, ok bool) {
+		nw, err := fromWire(raw)
+		if err != nil {
+			c.Failf("transport/wire/unreadable", "%s: %v", in, err)
+			return nil, nil, "", false
+		}
+		row, err := w.storage.GetCertificateByHeight(nw.Height)
+		if err != nil || row == nil || row.SignedCertificate == nil {
+			c.Failf("pipeline/certificate-not-stored", "%s: no stored copy at the submitted height %d: %v (last error %q)", in,
+				nw.Height, err, w.sender.Info().AggsenderStatus.LastError)
+			return nil, nil, "", false
+		}
+		stored := *row.SignedCertificate
+		nj, err := fromJSON(stored)
+		if err != nil {
+			c.Failf("transport/json/unreadable", "%s: the stored JSON does not show a covered field: %v", in, err)
+			return nil, nil, "", false
+		}
+		fb := flat(fromStruct(built))
+		if d := diffFlat(fb, flat(nw)); len(d) > 0 {
+			c.Failf("transport/wire/"+fieldKey(d), "%s: the submitted message differs from the built certificate:%s", in, showDiff(d))
+		}
+		if d := diffFlat(fb, flat(nj)); len(d) > 0 {
+			c.Failf("transport/json/"+fieldKey(d), "%s: the stored copy differs from the built certificate:%s", in, showDiff(d))
+		}
+		if d := diffFlat(flat(nw), flat(nj)); len(d) > 0 {
+			c.Failf("stored-ne-sent/"+fieldKey(d), "%s: the stored copy differs from the submitted message:%s", in, showDiffAs(d, "sent", "stored"))
+		}
 
-	// ---- oracle 1+2: what was signed, by whom
-	commitW, kindW := refSigningCommit(nw)
-	commitJ, _ := refSigningCommit(nj)
-	wantKind := "pp"
-	if sp.Scheme != schemePP {
-		wantKind = "fep"
-	}
-	if kindW != wantKind {
-		c.Failf("signing/wrong-scheme", "%s: the message carries aggchain data of kind %q", in, nw.Agg.Kind)
-	}
-	var rec *sigRecord
-	for i := range w.signer.recs {
-		if eq(w.signer.recs[i].Sig, nw.Agg.Signature) {
-			rec = &w.signer.recs[i]
+		// ---- oracle 1+2: what was signed, by whom
+		commitW, kindW := refSigningCommit(nw)
+		commitJ, _ := refSigningCommit(nj)
+		wantKind := "pp"
+		if sp.Scheme != schemePP {
+			wantKind = "fep"
 		}
-	}
-	switch {
-	case rec == nil:
-		c.Failf("signature/not-produced-by-signer", "%s: the submitted signature %x is none of the %d the signer produced", in,
-			nw.Agg.Signature, len(w.signer.recs))
-	default:
-		if !eq(rec.Hash.Bytes(), commitW) {
-			c.Failf("signer/hash-ne-commitment-of-sent", "%s: signer was asked to sign %x, the submitted message commits (%s) to %x", in,
-				rec.Hash, kindW, commitW)
+		if kindW != wantKind {
+			c.Failf("signing/wrong-scheme", "%s: the message carries aggchain data of kind %q", in, nw.Agg.Kind)
 		}
-		if !eq(rec.Hash.Bytes(), commitJ) {
-			c.Failf("signer/hash-ne-commitment-of-stored", "%s: signer was asked to sign %x, the stored copy commits to %x", in, rec.Hash, commitJ)
-		}
-	}
-	if !eq(nw.Agg.Signature, nj.Agg.Signature) {
-		c.Failf("signature/sent-ne-stored", "%s: sent %x stored %x", in, nw.Agg.Signature, nj.Agg.Signature)
-	}
-	for _, x := range []struct {
-		where  string
-		commit []byte
-		sig    []byte
-	}{{"sent", commitW, nw.Agg.Signature}, {"stored", commitJ, nj.Agg.Signature}} {
-		good := false
-		if len(x.sig) == 65 {
-			s := append([]byte{}, x.sig...)
-			if s[64] >= 27 {
-				s[64] -= 27
-			}
-			if pub, err := crypto.SigToPub(x.commit, s); err == nil && crypto.PubkeyToAddress(*pub) == w.signer.PublicAddress() {
-				good = true
+		var rec *sigRecord
+		for i := range w.signer.recs {
+			if eq(w.signer.recs[i].Sig, nw.Agg.Signature) {
+				rec = &w.signer.recs[i]
 			}
 		}
-		if !good {
-			c.Failf("signature/does-not-recover-to-signer/"+x.where, "%s: signature %x over the %s commitment %x does not recover to %s", in,
-				x.sig, x.where, x.commit, w.signer.PublicAddress())
+		switch {
+		case rec == nil:
+			c.Failf("signature/not-produced-by-signer", "%s: the submitted signature %x is none of the %d the signer produced", in,
+				nw.Agg.Signature, len(w.signer.recs))
+		default:
+			if !eq(rec.Hash.Bytes(), commitW) {
+				c.Failf("signer/hash-ne-commitment-of-sent", "%s: signer was asked to sign %x, the submitted message commits (%s) to %x", in,
+					rec.Hash, kindW, commitW)
+			}
+			if !eq(rec.Hash.Bytes(), commitJ) {
+				c.Failf("signer/hash-ne-commitment-of-stored", "%s: signer was asked to sign %x, the stored copy commits to %x", in, rec.Hash, commitJ)
+			}
 		}
+		if !eq(nw.Agg.Signature, nj.Agg.Signature) {
+			c.Failf("signature/sent-ne-stored", "%s: sent %x stored %x", in, nw.Agg.Signature, nj.Agg.Signature)
+		}
+		for _, x := range []struct {
+			where  string
+			commit []byte
+			sig    []byte
+		}{{"sent", commitW, nw.Agg.Signature}, {"stored", commitJ, nj.Agg.Signature}} {
+			good := false
+			if len(x.sig) == 65 {
+				s := append([]byte{}, x.sig...)
+				if s[64] >= 27 {
+					s[64] -= 27
+				}
+				if pub, err := crypto.SigToPub(x.commit, s); err == nil && crypto.PubkeyToAddress(*pub) == w.signer.PublicAddress() {
+					good = true
+				}
+			}
+			if !good {
+				c.Failf("signature/does-not-recover-to-signer/"+x.where, "%s: signature %x over the %s commitment %x does not recover to %s", in,
+					x.sig, x.where, x.commit, w.signer.PublicAddress())
+			}
+		}
+		// identity: the id the (model) Agglayer derived from the wire is the one recorded, and the stored copy reproduces it
+		if idW := refCertID(nw); !eq(row.Header.CertificateID.Bytes(), idW) || !eq(refCertID(nj), idW) {
+			c.Failf("identity/stored-ne-sent", "%s: id from wire %x, recorded %x, from stored copy %x", in, idW, row.Header.CertificateID, refCertID(nj))
+		}
+
+		return nw, commitW, kindW, true
 	}
-	// identity: the id the (model) Agglayer derived from the wire is the one recorded, and the stored copy reproduces it
-	if idW := refCertID(nw); !eq(row.Header.CertificateID.Bytes(), idW) || !eq(refCertID(nj), idW) {
-		c.Failf("identity/stored-ne-sent", "%s: id from wire %x, recorded %x, from stored copy %x", in, idW, row.Header.CertificateID, refCertID(nj))
+	built := w.flow.built[0]
+	in := fmt.Sprintf("%s prev=%v", sp, withPrev)
+	nw, commitW, kindW, ok := verify(built, w.submission.requests[0], in)
+	if !ok {
+		return
+	}
+	// ---- the certificate ends in error and is sent again after the L2 data of its range changed (a reorg
+	// replaced a bridge / a claim): the retry is a new certificate and needs its own signature
+	if sp.Perturb == 0 && (len(sp.Exits) > 0 || len(sp.Imps) > 0) && c.Bool("in-error-then-retry-after-the-range-changed") {
+		row, err := w.storage.GetCertificateByHeight(nw.Height)
+		if err != nil || row == nil {
+			c.Failf("pipeline/certificate-not-stored", "%s: %v", in, err)
+			return
+		}
+		if err := w.storage.UpdateCertificateStatus(context.Background(), row.Header.CertificateID, agglayertypes.InError, row.Header.CreatedAt+1); err != nil {
+			c.Failf("harness/cannot-mark-in-error", "%v", err)
+			return
+		}
+		w.mutateRange()
+		w.flow.built, w.submission.requests = nil, nil
+		w.epochs.ch <- types.EpochEvent{Epoch: 2}
+		w.sender.VerifEpochTick(context.Background())
+		if len(w.flow.built) != 1 || len(w.submission.requests) != 1 {
+			c.Failf("pipeline/no-retry-sent", "%s: after InError: built %d certificates, submitted %d; last error: %q", in,
+				len(w.flow.built), len(w.submission.requests), w.sender.Info().AggsenderStatus.LastError)
+			return
+		}
+		c.Witness("retries_after_the_range_changed")
+		if _, _, _, ok := verify(w.flow.built[0], w.submission.requests[0], in+" retry-after-InError"); !ok {
+			return
+		}
+		c.NonTrivial()
+		return
 	}
 	if nw.Height != w.wantHeight {
 		c.Obs("%s: note: submitted height %d, the harness expected %d (not part of this property)", in, nw.Height, w.wantHeight)
